@@ -113,9 +113,9 @@ func (a *Authenticator) VerifySignature(publicKey []byte, signature []byte, cont
 	}
 	h := crypto.SHA3Sum256(content)
 	if !s.Verify(h, pubKey) {
-		err = ErrInvalidSignature
+		return nil, ErrInvalidSignature
 	}
-	return NewPeerIDFromPublicKey(pubKey), err
+	return NewPeerIDFromPublicKey(pubKey), nil
 }
 
 func (a *Authenticator) SetSecureSuites(channel string, ss []SecureSuite) error {
